@@ -21,7 +21,8 @@ META = {
 
 NAMES = ['x', '.hidden', '-dash', 'a b', 'p%41q', 'new\nline', '\u00fcn\u00ef', 'files', 'x.trashinfo', 'x_1',
          'n' * 200, ' lead', 'trail ', 'a=b', '[Trash Info]', 'Path=z']
-LAYOUTS = ['home', 'top', 'alt', 'trash-dir']
+LAYOUTS = ['home', 'top', 'alt', 'trash-dir', 'trash-dir-through-a-link-on-another-volume']
+NL = len(LAYOUTS)
 SORTS = [None, 'date', 'path', 'none']
 FROMS = ['origdir', 'ancestor', 'root', 'path-arg', 'path-arg-rel']
 NOISE = ['none', 'other-before', 'same-name-before', 'other-after']
@@ -41,6 +42,11 @@ def scenario(kind, name, layout, sort, frm, parent_removed, noise):
     if lay == 'trash-dir':
         put_extra = ['--trash-dir', '/v/td']
         rest_extra = ['--trash-dir', '/v/td']
+    if lay.startswith('trash-dir-through'):
+        # the trash directory is spelled through a symlink that lives on the root volume and points into /v
+        nodes += [W.d('/v/td', 0o700), W.l('/h/lt', '/v/td', 810)]
+        put_extra = ['--trash-dir', '/h/lt']
+        rest_extra = ['--trash-dir', '/h/lt']
     e = scen.env()
     steps = []
     nz = NOISE[noise]
@@ -160,29 +166,29 @@ def _case(kind, name, layout, sort, frm, parent_removed, noise):
 def w_main(kind: int, name: int, layout: int, sort: int) -> str:
     """
     pre: PARTITION is None or kind == PARTITION
-    pre: 0 <= kind < 6 and 0 <= name < 16 and 0 <= layout < 4 and 0 <= sort < 4
+    pre: 0 <= kind < 6 and 0 <= name < 16 and 0 <= layout < NL and 0 <= sort < 4
     post: _ == ''
     """
-    return _case(rt.sel(kind, 6), rt.sel(name, 16), rt.sel(layout, 4), rt.sel(sort, 4), 0, False, 0)
+    return _case(rt.sel(kind, 6), rt.sel(name, 16), rt.sel(layout, NL), rt.sel(sort, 4), 0, False, 0)
 
 
 def w_from(kind: int, layout: int, frm: int, parent_removed: bool, noise: int, name: int, sort: int) -> str:
     """
     pre: PARTITION is None or kind == PARTITION
-    pre: 0 <= kind < 6 and 0 <= layout < 4 and 0 <= frm < 5 and 0 <= noise < 4 and 0 <= name < 3 and 0 <= sort < 3
+    pre: 0 <= kind < 6 and 0 <= layout < NL and 0 <= frm < 5 and 0 <= noise < 4 and 0 <= name < 3 and 0 <= sort < 3
     post: _ == ''
     """
-    return _case(rt.sel(kind, 6), rt.of([0, 2, 5], name), rt.sel(layout, 4), rt.of([0, 2, 3], sort), rt.sel(frm, 5),
+    return _case(rt.sel(kind, 6), rt.of([0, 2, 5], name), rt.sel(layout, NL), rt.of([0, 2, 3], sort), rt.sel(frm, 5),
                  rt.selb(parent_removed), rt.sel(noise, 4))
 
 
 def w_full(kind: int, name: int, layout: int, sort: int, frm: int, parent_removed: bool, noise: int) -> str:
     """
     pre: PARTITION is None or (kind == PARTITION[0] and layout == PARTITION[1])
-    pre: 0 <= kind < 6 and 0 <= name < 16 and 0 <= layout < 4 and 0 <= sort < 4 and 0 <= frm < 5 and 0 <= noise < 4
+    pre: 0 <= kind < 6 and 0 <= name < 16 and 0 <= layout < NL and 0 <= sort < 4 and 0 <= frm < 5 and 0 <= noise < 4
     post: _ == ''
     """
-    return _case(rt.sel(kind, 6), rt.sel(name, 16), rt.sel(layout, 4), rt.sel(sort, 4), rt.sel(frm, 5),
+    return _case(rt.sel(kind, 6), rt.sel(name, 16), rt.sel(layout, NL), rt.sel(sort, 4), rt.sel(frm, 5),
                  rt.selb(parent_removed), rt.sel(noise, 4))
 
 
@@ -228,13 +234,13 @@ def obligations(tier):
            bounds='volume: any mount-point-shaped str len<=3; parent = volume or volume/rest with rest any str len<=3 without leading/trailing slash'),
         CH('W_kind_name_layout_sort', MOD, 'w_main', timeout=900, partitions=list(range(6)), engine='W',
            regime='selector', encodes=enc, stubs=K.STUBS,
-           bounds='6 kinds x 16 names x 4 layouts x 4 sort modes; restore from the original directory'),
+           bounds='6 kinds x 16 names x 5 layouts (incl. --trash-dir through a symlink crossing a mount point) x 4 sort modes; restore from the original directory'),
         CH('W_from_parent_noise', MOD, 'w_from', timeout=900, partitions=list(range(6)), engine='W',
            regime='selector', encodes=enc, stubs=K.STUBS,
-           bounds='6 kinds x 4 layouts x 5 restore-from x parent removed x 4 noise histories x 3 names x 3 sorts'),
+           bounds='6 kinds x 5 layouts x 5 restore-from x parent removed x 4 noise histories x 3 names x 3 sorts'),
     ]
     if tier == 'thorough':
         obs.append(CH('W_full_product', MOD, 'w_full', timeout=3000, twin=False, engine='W', regime='selector',
-                      partitions=[(k, l) for k in range(6) for l in range(4)], encodes=enc, stubs=K.STUBS,
-                      bounds='6 x 16 x 4 x 4 x 5 x 2 x 4 full product'))
+                      partitions=[(k, l) for k in range(6) for l in range(NL)], encodes=enc, stubs=K.STUBS,
+                      bounds='6 x 16 x 5 x 4 x 5 x 2 x 4 full product'))
     return obs
